@@ -170,6 +170,27 @@ def run(ctx):
     unknown = [x for x in own_nodes(fs.node) if isinstance(x, ast.Raise) and "StateNotFoundError" in norm(x.exc)]
     c.ob("R4", bool(unknown), fs, "unknown-state-rejected", "a snapshot naming a state the machine lacks raises StateNotFoundError" if unknown else
          "a snapshot naming an unknown state is accepted silently", fs.node)
+    # ---- R11 a restored attribute is the persisted value, not a merge with the fresh interpreter's default -----------------
+    # (context keys the run deleted would come back with their initial values: the restored run diverges from the uninterrupted one)
+    n11 = 0
+    for asg in [x for x in own_nodes(fs.node) if isinstance(x, ast.Assign) and len(x.targets) == 1 and isinstance(x.targets[0], ast.Attribute)
+                and dotted(x.targets[0].value) in ("interpreter", "child")]:
+        recv, attr = dotted(asg.targets[0].value), asg.targets[0].attr
+        n11 += 1
+        seen_n, work, exprs = set(), [asg.value], []
+        while work:
+            e = work.pop()
+            exprs.append(e)
+            for y in ast.walk(e):
+                if isinstance(y, ast.Name) and isinstance(y.ctx, ast.Load) and y.id not in seen_n and y.id not in fs.params:
+                    seen_n.add(y.id)
+                    work.extend(getattr(a_, "value", None) for a_ in assignments_to(fs, y.id) if getattr(a_, "value", None) is not None)
+        merged = [y for e in exprs for y in ast.walk(e) if isinstance(y, ast.Attribute) and isinstance(y.ctx, ast.Load) and y.attr == attr and dotted(y.value) == recv]
+        c.ob("R11", not merged, fs, f"restore-replaces:{attr}", f"'{recv}.{attr}' is set from the snapshot alone" if not merged else
+             f"the value restored into '{recv}.{attr}' is computed from '{recv}.{attr}' itself (the freshly constructed default): persisted state is merged with the "
+             f"machine's initial state instead of replacing it - e.g. a context key the run had deleted reappears with its initial value, and the restored run "
+             f"diverges from the uninterrupted one", asg)
+    c.expect("R11", "attributes restored by assignment in from_snapshot", n11, 3, fs, "from_snapshot no longer restores context / status / output by assignment")
     # ---- R7 every persisted configuration id is restored (or rejected) ----------------------------
     shared.restore_every_id(ctx, "R7")
     # ---- R10 actor records are persisted in the interpreter's own (spawn) order ---------------------------------
